@@ -554,10 +554,11 @@ func compileV2Metadata(tables []TableMetadata, logger StdLogger) {
 
 		for _, columnName := range table.OrderedColumns {
 			column := table.Columns[columnName]
-			if column.Kind == ColumnPartitionKey {
-				table.PartitionKey[column.ComponentIndex] = column
-			} else if column.Kind == ColumnClusteringKey {
-				table.ClusteringColumns[column.ComponentIndex] = column
+			// (a component index the schema tables report may not fit the key)
+			if i := column.ComponentIndex; column.Kind == ColumnPartitionKey && i >= 0 && i < len(table.PartitionKey) {
+				table.PartitionKey[i] = column
+			} else if column.Kind == ColumnClusteringKey && i >= 0 && i < len(table.ClusteringColumns) {
+				table.ClusteringColumns[i] = column
 			}
 		}
 	}
@@ -566,10 +567,19 @@ func compileV2Metadata(tables []TableMetadata, logger StdLogger) {
 // returns the count of coluns with the given "kind" value.
 func componentColumnCountOfType(columns map[string]*ColumnMetadata, kind ColumnKind) int {
 	maxComponentIndex := -1
+	n := 0
 	for _, column := range columns {
-		if column.Kind == kind && column.ComponentIndex > maxComponentIndex {
+		if column.Kind != kind {
+			continue
+		}
+		n++
+		if column.ComponentIndex > maxComponentIndex {
 			maxComponentIndex = column.ComponentIndex
 		}
+	}
+	// the components of a key are numbered 0 .. n-1: there can not be more than columns of the kind
+	if maxComponentIndex+1 > n {
+		return n
 	}
 	return maxComponentIndex + 1
 }
